@@ -157,6 +157,9 @@ class FakeInstanceConfig:
     def to_dict(self):
         return {'version': 0, 'verif': True}
 
+    def region_for(self, location):
+        return 'us-central1'
+
 
 class FakeInstColl:
     def __init__(self, name: str, is_pool: bool):
